@@ -86,7 +86,7 @@ RULE = (
     "drawn in the other moments; thorough: x every loss x moment); "
     "x state of the tested side's send direction at the loss {ok, full = the peer stopped reading, the socket-like object accepts nothing}: the calls '<call>@tx-full' "
     "(send, sendall, exec_command, global_request issued on a full direction: blocked in Packetizer.write_all holding the write lock) x every link loss, and the "
-    "case field tx=full (direction made full right before the loss trigger) for every call once in quick with the loss rotating over peer-close / link-eof / link-error / local-close (quick: every applicable call x loss pair "
+    "case field tx=full (direction made full right before the loss trigger) for every call once in quick with the loss rotating over peer-close / link-eof / link-error / local-close; (quick: every applicable call x loss pair "
     "once in call-first order over the link, every client call over a real ProxyCommand child for 'child gone' (exit / SIGKILL alternating per call), "
     "'stdout EOF while the child lingers' and one loss that reaches the transport another way, plus "
     "drawn loss-first/together cases; thorough: full product x 3 moments x repetitions, sharded), errno / garbage flavour / "
@@ -831,13 +831,15 @@ class Env:
         for ev in self.events:
             ev.set()
         transports = [t for t in (self.tested, self.peer) if t is not None]
-        for t in transports:
-            try:
-                t.packetizer.close()  # closes the socket-like object too; makes stop_thread()'s join loop end
-            except Exception:
-                pass
         if self.link is not None:
+            # first the link itself: a sender that sits on a full direction gets "broken pipe" and lets go of the
+            # packetizer's write lock
             self.link.close()
+        # (in threads: under a defective tree even Packetizer.close() may block)
+        pclosers = [run_thread(t.packetizer.close, "c13-cleanup-pclose") for t in transports]  # closes the socket-like object too; makes stop_thread()'s join loop end
+        for th in pclosers:
+            th.join(5)
+            leaked += th.is_alive()
         closers = [run_thread(t.close, "c13-cleanup-close") for t in transports]
         for th in closers:
             th.join(10)
@@ -847,6 +849,16 @@ class Env:
                 self.chan._unlink()
             except Exception:
                 pass
+            # (teardown only, never part of a verdict) release waiters a defective close path left behind
+            for name in ("status_event", "event"):
+                ev = getattr(self.chan, name, None)
+                if ev is not None and hasattr(ev, "set"):
+                    ev.set()
+            for name in ("in_buffer", "in_stderr_buffer"):
+                try:
+                    getattr(self.chan, name).close()
+                except Exception:
+                    pass
         for t in transports:
             with t.lock:
                 t.server_accept_cv.notify_all()
